@@ -207,7 +207,10 @@ RULES = [
     ('break in routine outside loop', 'define r2 begin break end'),
     ('assign to a macro', 'assign m 6'), ('redefine a macro', 'define m 6'), ('redefine a routine', 'define f on all'),
     ('undefined variable', 'hue nosuch'), ('undefined name as light', 'set nosuch'), ('undefined routine', 'nosuch 1'),
-    ('undefined in expression', 'hue {nosuch + 1}'), ('routine inside routine', 'define o begin define i on all end'),
+    ('undefined in expression', 'hue {nosuch + 1}'), ('first assignment refers to itself', 'assign nosuch nosuch'),
+    ('first assignment refers to itself in an expression', 'assign nosuch {nosuch + 1}'),
+    ('undefined counter in loop', 'repeat 2 begin assign cnt {cnt + 1} end'), ('undefined local in routine', 'define r2 begin assign q {q * 2} end'),
+    ('undefined as argument', 'f nosuch'), ('undefined in condition', 'if {nosuch > 1} on all'), ('undefined as count', 'repeat nosuch on all'), ('routine inside routine', 'define o begin define i on all end'),
     ('missing end', 'if {v > 0} begin on all'), ('missing end in routine', 'define o begin on all'),
     ('missing end in repeat', 'repeat 2 begin on all'), ('unbalanced brace', 'hue {1 + 2'), ('unbalanced brace 2', 'hue 1 + 2}'),
     ('unbalanced bracket', 'hue [f 1'), ('unbalanced parenthesis', 'hue {(1 + 2}'), ('unbalanced parenthesis 2', 'hue {1 + 2)}'),
@@ -248,6 +251,12 @@ def rule_worker(args):
                 job.load_string(text)
                 if job.program:
                     bad = 'rejected, but the job still holds a program of %d instructions' % len(job.program)
+            if bad is None:
+                job = ScriptJob()
+                job.load_string('off "A" on all')           # an accepted text first, then the rejected one
+                job.load_string(text)
+                if job.program:
+                    bad = 'rejected after an accepted text: the job still holds a program of %d instructions' % len(job.program)
             if bad:
                 res.violation('rules|%s|%s' % (name, sig_detail(bad)), 'rule breaker (%s) %s\n  script: %s' % (name, bad, prefix + snippet + suffix),
                               inputs={'text': text}, replayed=True)
